@@ -126,6 +126,12 @@ Definition lm (tol : Qc) (m : res (list Qc)) (o : obs (list Qc)) : bool := res_m
         kind = rng.choice(["grid", "grid", "offgrid", "free"])
         if kind == "grid":       # the recreate pipeline shape: reference points sit on every n-th sample
             xr = gens.sorted_x(rng, m)
+            if max(abs(v) for v in xr) >= 2.0 ** 20:
+                # abscissae on a large offset: subdivide by a power of two only, so that the fine grid is exact in floats. With
+                # x = 1.7e9 + 0.6 k the centre and half-width of a window are rounded at 2.4e-7, the profile weight at a fixed point
+                # is 1e-7 instead of 0, and a displacement of 1.5e6 (values of order 1e6 matched to a reference of order 1) moves the
+                # fixed point by 0.2: a rounding effect of the input representation, which the exact model rightly does not have
+                n = rng.choice([2, 4, 8])
             x = []
             for a, b in zip(xr[:-1], xr[1:]):
                 x += [a + i * (b - a) / n for i in range(n)]
